@@ -19,6 +19,8 @@ def check(body, pred):
         f = t.get("f")
         if f and f["path"].endswith("Div::div") and len(t["args"]) == 2:
             sites.append((bb, res.operand(t["args"][1])))
+        if f and f["path"].endswith(("::div_element_mut", "::div_scalar_mut", "::div_scalar")) and t["args"]:
+            sites.append((bb, res.operand(t["args"][-1])))
     for i, j, s in body.stmts():
         if s["k"] == "assign" and s["r"]["k"] == "bin" and s["r"]["op"] in ("Div", "Rem"):
             sites.append((i, res.operand(s["r"]["b"])))
